@@ -418,7 +418,73 @@ def crystal_shift_worker(part, job):
     part.nstates(1)
 
 
+def shared_sht_worker(part, job):
+    """
+    ONE long-lived SHT object handed to every descriptor call (what a program computing descriptors for many molecules does), with the
+    object's other public methods used in between (reading the fitted radial function off-grid, synthesising it, its power spectrum):
+    every descriptor equals the one a fresh SHT gives for the same molecule, whatever the object was used for before
+    """
+    from chmpy.shape import SHT, promolecule_density_descriptor, stockholder_weight_descriptor
+
+    name, L = job
+    syms, p0 = MOLS[name]
+    zs = zs_of(syms)
+    p0 = np.array(p0, dtype=float)
+    ez, ep = exterior_for(name, zs, p0)
+    Q = rot((1, 2, 3), 0.7)
+    poses = {"reference": (zs, p0), "translated": (zs[::-1].copy(), p0[::-1] + np.array([5.0, -3.0, 2.0])), "rotated": (zs, p0 @ Q.T)}
+
+    def promol(sht, k, **kw):
+        return promolecule_density_descriptor(sht, poses[k][0], poses[k][1], **kw)
+
+    def stock(sht, k, **kw):
+        return stockholder_weight_descriptor(sht, zs, p0, ez, ep, bounds=(0.1, 9.0), **kw)
+
+    calls = {"promolecule": promol, "stockholder": stock, "promolecule+d_norm": lambda sht, k: promol(sht, k, with_property="d_norm")}
+    fresh = {}
+    for cn, fn in calls.items():
+        for k in poses:
+            fresh[(cn, k)] = np.asarray(fn(SHT(L), k), dtype=float)
+    coeffs, inv0 = promolecule_density_descriptor(SHT(L), zs, p0, coefficients=True)
+    between = {
+        "nothing": lambda sht: None,
+        "evaluate_at_points": lambda sht: [sht.evaluate_at_points(coeffs, th, ph) for th, ph in ((0.3, 0.2), (1.1, 2.9), (2.6, 5.1))],   # one colatitude per call
+        "evaluate_at_points(one point)": lambda sht: sht.evaluate_at_points(coeffs, 0.77, 4.0),
+        "synthesis": lambda sht: sht.synthesis(coeffs),
+        "synthesis_pure_python": lambda sht: sht.synthesis_pure_python(coeffs) if L <= 6 else None,
+        "power_spectrum": lambda sht: sht.power_spectrum(coeffs),
+        "grid": lambda sht: sht.grid_cartesian,
+    }
+    case = {"kind": "shared-sht", "mol": name, "L": L}
+    for first in calls:
+        for bname, bfn in between.items():
+            for second in calls:
+                sht = SHT(L)
+                part.ev()
+                part.tr(3)
+                try:
+                    a = np.asarray(calls[first](sht, "reference"), dtype=float)
+                    bfn(sht)
+                    b = np.asarray(calls[second](sht, "translated"), dtype=float)
+                    bfn(sht)
+                    c = np.asarray(calls[second](sht, "rotated"), dtype=float)
+                except Exception as e:
+                    part.fail("shared-sht:raise", "descriptors of %s through one SHT object (%s, %s in between, %s) raised %s: %s" % (name, first, bname, second, type(e).__name__, str(e)[:80]), case)
+                    continue
+                for got, key in ((a, (first, "reference")), (b, (second, "translated")), (c, (second, "rotated"))):
+                    dev = float(np.abs(got - fresh[key]).max() / max(1e-300, np.abs(fresh[key]).max())) if got.shape == fresh[key].shape else np.inf
+                    part.dev("shared_sht_vs_fresh", dev)
+                    if not (dev <= 1e-9):
+                        part.fail("shared-sht:%s" % bname.split("(")[0], "%s descriptor of %s (%s pose, l_max=%d) through an SHT object that had served %s and then %s differs by %.3g (relative) from the one a "
+                                  "fresh SHT gives" % (key[0], name, key[1], L, first, bname, dev), case)
+                        break
+                part.outcome(("shared-sht", first, bname, second))
+    part.nstates(1)
+
+
 def worker(part, job):
+    if job[0] == "shared-sht":
+        return shared_sht_worker(part, job[1])
     if job[0] == "mol":
         mol_worker(part, job[1])
     elif job[0] == "radial":
@@ -468,6 +534,8 @@ def run(ctx):
             for kind, ch, iso in combos:
                 jobs.append(("mol", (name, L, kind, ch, iso, rots if kind != "atomic-api" else rots[:4], ctx.seed)))
         jobs.append(("radial", (name, 8)))
+        if name in ("H2O", "NH3", "H2CO") or ctx.thorough:
+            jobs.append(("shared-sht", (name, 6 if name != "NH3" else 9)))
         jobs.append(("radial", (name, 5)))
     for fname in ("acetic_acid.cif", "iceII.cif"):
         for L in ((4, 6, 8) if not ctx.thorough else LMAX):
@@ -504,5 +572,7 @@ def replay(ctx, case):
         crystal_shift_worker(ctx, (case["file"], case["L"], case["api"], case["shift"]))
     elif k == "radial":
         radial_worker(ctx, (case["mol"], case["L"]))
+    elif k == "shared-sht":
+        shared_sht_worker(ctx, (case["mol"], case["L"]))
     else:
         crystal_worker(ctx, (case["file"], case["L"], case["api"], case["rot"], case.get("seed", 0)))
